@@ -211,7 +211,7 @@ def coapUnparseSemantic : List (String × ABuf) → Option Nat → Nat → Py (L
       pure ((fid, v) :: r)
     else
       let number ← optionNumber fid lastNumber
-      if number < prev then throw .unmodelled
+      if number < prev then throw .overflowError   -- `(number - prev).to_bytes(1, …)` of a negative int
       let out ← encodeOption (number - prev) v
       let r ← coapUnparseSemantic rest (some number) number
       pure (out ++ r)
